@@ -54,6 +54,11 @@ type vC02Res struct {
 	Saw    string      `json:"saw"` // what the custom masquerade handler saw (method|host|path), "" if not invoked / not observable
 	Err    string      `json:"err,omitempty"`
 	Skip   bool        `json:"skip,omitempty"` // request could not be built by the client library (not sent)
+	// K == "abort" (c02abort_test.go)
+	Out   string `json:"out,omitempty"`   // resp | abort | noresp | notsent: what the client got within the bound
+	OOut  string `json:"oout,omitempty"`  // resp | abort: what the masquerade handler alone does with this request
+	OSent bool   `json:"osent,omitempty"` // ... it aborts after having flushed OSt / OHdr / OBody
+	Fault string `json:"fault,omitempty"` // the callback that failed while this request was served (from the boundary log)
 }
 
 type vC02Out struct {
@@ -245,6 +250,8 @@ func TestVerifC02(t *testing.T) {
 			var o vC02Out
 			if cs.K == "gate" {
 				o = vRunC02Gate(cs)
+			} else if cs.K == "abort" {
+				o = vRunC02Abort(cs)
 			} else {
 				o = vRunC02(cs)
 			}
